@@ -114,76 +114,120 @@ def encode_line(line):
     return out
 
 
-CHUNK = 64       # rows per packed numeral (a numeral of ~17k hex digits elaborates fast, much larger ones do not)
+NBUCKETS = 64     # rows are bucketed by the instruction *name* so that a change touches only its bucket's module
 
 
-MARK = 1 << 64      # row terminator; every field is < 2^64
-
-
-def pack(lines):
-    """rows -> (one natural number whose base-2^65 digits are the fields, each row followed by MARK; number of digits).
-    A list literal of 30 000 rows takes Lean minutes to elaborate, one numeral per chunk takes milliseconds."""
+def pack(rows):
+    """rows (lists of naturals < 2^64) -> (one natural whose base-2^65 digits are the fields, each row followed by MARK;
+    number of digits). A list literal of thousands of rows takes Lean minutes to elaborate, a numeral milliseconds."""
     digits = []
-    for l in lines:
-        digits += encode_line(l) + [MARK]
+    for r in rows:
+        digits += r + [MARK]
     n = 0
     for d in reversed(digits):
         n = (n << 65) | d
     return n, len(digits)
 
 
-def render(allow_lines, exclude_lines):
-    s = "/- GENERATED by tools/gen_x86forms.py from db/isa_x86.json (through db/index.js) and lean/implemented_forms.txt - do not edit.\n"
-    s += "   One chunk = (packed rows, digit count), decoded by Spec/X86Forms.lean `unpack`. -/\n"
-    s += "namespace AsmjitVerif.Gen.X86Forms\n\n"
-
-    def chunks(name, lines):
-        t = ""
-        n = 0
-        for c in range(0, len(lines), CHUNK):
-            v, k = pack(lines[c:c + CHUNK])
-            t += "def %s%d : Nat × Nat := (0x%x, %d)\n" % (name, n, v, k)
-            n += 1
-        return t, n
-
-    a, na = chunks("allow", allow_lines)
-    e, ne = chunks("exclude", exclude_lines)
-    s += a + e
-    s += "\ndef allowChunks : List (Nat × Nat) := [%s]\n" % ", ".join("allow%d" % i for i in range(na))
-    s += "def excludeChunks : List (Nat × Nat) := [%s]\n" % ", ".join("exclude%d" % i for i in range(ne))
-    s += "def allowCount : Nat := %d\ndef excludeCount : Nat := %d\n" % (len(allow_lines), len(exclude_lines))
-    s += "\nend AsmjitVerif.Gen.X86Forms\n"
-    return s, na, ne
+MARK = 1 << 64      # row terminator; every field is < 2^64
 
 
-NPARTS = 4
+def resolved(sig, iid):
+    """the data of one instruction as Model/X86Validate.lean `resolve` computes it"""
+    iflags, avx, si, sc = sig["insts"][iid]
+    rows = []
+    for oc, mode, ic, idx in sig["isigs"][si:si + sc]:
+        rows.append((oc, mode, ic, tuple(sig["osigs"][k] for k in idx[:oc])))
+    return (iflags, avx, tuple(rows), iid in sig["pairk"])
 
 
-def render_props(na, ne):
-    """-> {relative path: content}: the chunk lemmas spread over NPARTS modules (built in parallel by lake) + the summary."""
-    items = [("allow", i) for i in range(na)] + [("exclude", i) for i in range(ne)]
+def render_buckets(sig, id2name, allow_lines, exclude_lines):
+    """-> {relative path: content}, number of buckets. One module per bucket: the packed rows, the instruction data the
+    rows need (copied from the signature tables; Gen/X86FormsLink.lean proves the copy faithful) and the `decide +kernel`
+    lemma. A bucket module does not import the big tables, so it is re-proved only when its own content changes."""
+    buckets = [[] for _ in range(NBUCKETS)]
+    for exp, lines in ((1, allow_lines), (0, exclude_lines)):
+        for l in lines:
+            iid = int(l.split()[2])
+            buckets[zlib.crc32(id2name.get(iid, "?").encode()) % NBUCKETS].append([exp] + encode_line(l))
     files = {}
-    for p in range(NPARTS):
-        s = "/- GENERATED by tools/gen_x86forms.py: one `decide +kernel` lemma per chunk of Gen/X86Forms.lean, so that a changed row names its chunk. -/\n"
-        s += "import AsmjitVerif.Spec.X86Forms\nimport AsmjitVerif.Gen.X86Forms\nimport AsmjitVerif.Gen.X86Sig\nset_option maxRecDepth 1000000\n"
-        s += "namespace AsmjitVerif.Gen.X86FormsChecked\nopen AsmjitVerif.X86Forms AsmjitVerif.Gen.X86Forms\n\n"
-        for kind, i in items[p::NPARTS]:
-            s += "theorem %s%d_ok : %s AsmjitVerif.Gen.X86Sig.tables %s%d = true := by decide +kernel\n" % (
-                kind, i, "allAccepted" if kind == "allow" else "allRefused", kind, i)
-        s += "\nend AsmjitVerif.Gen.X86FormsChecked\n"
-        files["AsmjitVerif/Gen/X86FormsChecked%d.lean" % p] = s
-    s = "/- GENERATED by tools/gen_x86forms.py -/\n" + "".join("import AsmjitVerif.Gen.X86FormsChecked%d\n" % p for p in range(NPARTS))
-    s += "namespace AsmjitVerif.Gen.X86FormsChecked\nopen AsmjitVerif.X86Forms AsmjitVerif.Gen.X86Forms\n"
-    for kind, n, pred in (("allow", na, "allAccepted"), ("exclude", ne, "allRefused")):
-        s += "\ntheorem %s_all : ∀ c ∈ %sChunks, %s AsmjitVerif.Gen.X86Sig.tables c = true := by\n  intro c hc\n" % (kind, kind, pred)
-        s += "  simp only [%sChunks, List.mem_cons, List.not_mem_nil, or_false] at hc\n" % kind
-        if n > 1:
-            s += "  rcases hc with " + " | ".join("h" for _ in range(n)) + "\n"
-            s += "".join("  · subst h; exact %s%d_ok\n" % (kind, i) for i in range(n))
-        else:
-            s += "  subst hc; exact %s0_ok\n" % kind
-    s += "\nend AsmjitVerif.Gen.X86FormsChecked\n"
-    files["AsmjitVerif/Gen/X86FormsCheckedAll.lean"] = s
+    for k, rows in enumerate(buckets):
+        ids = sorted({r[2] for r in rows})
+        rowsets = {}
+        s = "/- GENERATED by tools/gen_x86forms.py - do not edit. Bucket %d of the instantiated ISA-database forms. -/\n" % k
+        s += "import AsmjitVerif.Spec.X86Forms\nset_option maxRecDepth 1000000\nnamespace AsmjitVerif.Gen.X86Bucket%d\n" % k
+        s += "open AsmjitVerif.X86Validate AsmjitVerif.X86Forms\n\n"
+        body = ""
+        for iid in ids:
+            iflags, avx, rws, pk = resolved(sig, iid)
+            if rws not in rowsets:
+                rowsets[rws] = "rows%d" % len(rowsets)
+                s += "def %s : List (Nat × Nat × Nat × List (Nat × Nat)) := [%s]\n" % (rowsets[rws], ", ".join(
+                    "(%d, %d, %d, [%s])" % (oc, m, ic, ", ".join("(0x%x, 0x%x)" % o for o in refs)) for oc, m, ic, refs in rws))
+            body += "  (%d, { iflags := 0x%x, avx := 0x%x, rows := %s, pairK := %s }),\n" % (iid, iflags, avx, rowsets[rws], "true" if pk else "false")
+        s += "\ndef insts : List (Nat × ResolvedInst) := [\n%s]\n\n" % body.rstrip(",\n")
+        v, n = pack(rows)
+        s += "def rows : Nat × Nat := (0x%x, %d)\ndef rowCount : Nat := %d\n\n" % (v, n, len(rows))
+        s += "theorem bucket_ok : bucketOk insts rows = true := by decide +kernel\n\nend AsmjitVerif.Gen.X86Bucket%d\n" % k
+        files["AsmjitVerif/Gen/X86Bucket%d.lean" % k] = s
+    NLINK = 8
+    for p in range(NLINK):
+        ks = list(range(NBUCKETS))[p::NLINK]
+        s = "/- GENERATED by tools/gen_x86forms.py: the buckets' copies of the instruction data are what the signature tables say. -/\n"
+        s += "".join("import AsmjitVerif.Gen.X86Bucket%d\n" % k for k in ks) + "import AsmjitVerif.Gen.X86Sig\n"
+        s += "set_option maxRecDepth 1000000\nnamespace AsmjitVerif.Gen.X86FormsLink\nopen AsmjitVerif.X86Validate AsmjitVerif.X86Forms\n\n"
+        for k in ks:
+            s += "theorem resolved%d : resolvedOk AsmjitVerif.Gen.X86Sig.tables X86Bucket%d.insts = true := by decide +kernel\n" % (k, k)
+        s += "\nend AsmjitVerif.Gen.X86FormsLink\n"
+        files["AsmjitVerif/Gen/X86FormsLink%d.lean" % p] = s
+    s = "/- GENERATED by tools/gen_x86forms.py -/\n" + "".join("import AsmjitVerif.Gen.X86FormsLink%d\n" % p for p in range(NLINK))
+    s += "set_option maxRecDepth 1000000\nnamespace AsmjitVerif.Gen.X86FormsLink\nopen AsmjitVerif.X86Validate AsmjitVerif.X86Forms\n\n"
+    s += "def buckets : List (List (Nat × ResolvedInst) × (Nat × Nat)) := [\n  %s]\n\n" % ",\n  ".join(
+        "(X86Bucket%d.insts, X86Bucket%d.rows)" % (k, k) for k in range(NBUCKETS))
+    s += "def allowCount : Nat := %d\ndef excludeCount : Nat := %d\n\n" % (len(allow_lines), len(exclude_lines))
+    s += "theorem all_ok : ∀ b ∈ buckets, resolvedOk AsmjitVerif.Gen.X86Sig.tables b.1 = true ∧ bucketOk b.1 b.2 = true := by\n  intro b hb\n"
+    s += "  simp only [buckets, List.mem_cons, List.not_mem_nil, or_false] at hb\n"
+    s += "  rcases hb with " + " | ".join("h" for _ in range(NBUCKETS)) + "\n"
+    s += "".join("  · subst h; exact ⟨resolved%d, X86Bucket%d.bucket_ok⟩\n" % (k, k) for k in range(NBUCKETS))
+    s += "\nend AsmjitVerif.Gen.X86FormsLink\n"
+    files["AsmjitVerif/Gen/X86FormsLink.lean"] = s
+    return files
+
+
+NJUST = 8
+
+
+def render_sound(db, name2id, count):
+    """-> {relative path: content}: the database forms of every instruction as kind sets (tools/x86just.py) and one
+    `decide +kernel` lemma per part: every kind tuple a signature row admits is an instance of a database form."""
+    import x86just
+    forms = {}
+    for f in db["forms"]:
+        if f["name"] in name2id:
+            forms.setdefault(name2id[f["name"]], []).append(({"ANY": 3, "X86": 1, "X64": 2}[f["arch"]], x86just.form_kinds(f)))
+    ids = list(range(1, count))
+    files = {}
+    for p in range(NJUST):
+        s = "/- GENERATED by tools/gen_x86forms.py from db/isa_x86.json (through db/index.js, read by tools/x86just.py) - do not edit. -/\n"
+        s += "import AsmjitVerif.Spec.X86Sound\nimport AsmjitVerif.Gen.X86Sig\nset_option maxRecDepth 1000000\n"
+        s += "namespace AsmjitVerif.Gen.X86Just\nopen AsmjitVerif.X86Sound\n\n"
+        rows = []
+        for i in ids[p::NJUST]:
+            fs = sorted(set((m, tuple(k)) for m, k in forms.get(i, [])))
+            rows.append("  (%d, [%s])" % (i, ", ".join("(%d, [%s])" % (m, ", ".join("0x%x" % x for x in k)) for m, k in fs)))
+        s += "def forms%d : List (Nat × List DbForm) := [\n%s]\n\n" % (p, ",\n".join(rows))
+        s += "theorem sound%d : forms%d.all (instSound AsmjitVerif.Gen.X86Sig.tables) = true := by decide +kernel\n\n" % (p, p)
+        s += "end AsmjitVerif.Gen.X86Just\n"
+        files["AsmjitVerif/Gen/X86Just%d.lean" % p] = s
+    s = "/- GENERATED by tools/gen_x86forms.py -/\n" + "".join("import AsmjitVerif.Gen.X86Just%d\n" % p for p in range(NJUST))
+    s += "set_option maxRecDepth 1000000\nnamespace AsmjitVerif.Gen.X86Just\nopen AsmjitVerif.X86Sound\n\n"
+    s += "def parts : List (List (Nat × List DbForm)) := [%s]\n\n" % ", ".join("forms%d" % p for p in range(NJUST))
+    s += "theorem all_sound : ∀ part ∈ parts, part.all (instSound AsmjitVerif.Gen.X86Sig.tables) = true := by\n  intro part hp\n"
+    s += "  simp only [parts, List.mem_cons, List.not_mem_nil, or_false] at hp\n  rcases hp with " + " | ".join("h" for _ in range(NJUST)) + "\n"
+    s += "".join("  · subst h; exact sound%d\n" % p for p in range(NJUST))
+    s += "\n/-- every instruction id has an entry -/\ntheorem all_ids : ((List.range %d).all fun i => i == 0 || (parts.flatMap id).any (·.1 == i)) = true := by decide +kernel\n" % count
+    s += "\nend AsmjitVerif.Gen.X86Just\n"
+    files["AsmjitVerif/Gen/X86JustAll.lean"] = s
     return files
 
 
